@@ -7,7 +7,7 @@ import errno
 
 import gen
 import vnode
-from vnode import Env, VSocket, StopLoop, InertThread, OneShotQueue
+from vnode import Env, VSocket, StopLoop, InertThread, OneShotQueue, DeadlockError
 import diameter.node.node as node_mod
 import diameter.node.peer as peer_mod
 import diameter.node.application as app_mod
@@ -338,7 +338,7 @@ class Sim:
         if wq.items and not c._write_thread.stop_requested and not c._write_thread.crashed:
             try:
                 c.work_write_queue(c._write_thread)
-            except Exception as e:  # noqa
+            except (Exception, DeadlockError) as e:  # noqa
                 self.obs.append(f"CRASH writer {self.cname(c)} {type(e).__name__}")
                 self.env.crashes.append(("writer", e))
                 c._write_thread.crashed = True
@@ -357,7 +357,7 @@ class Sim:
             self.node._handle_connections(th)
         except StopLoop:
             pass
-        except Exception as e:  # noqa
+        except (Exception, DeadlockError) as e:  # noqa
             self.obs.append(f"CRASH io {type(e).__name__}")
             self.env.crashes.append(("io", e))
             self._io_dead = True
@@ -387,7 +387,7 @@ class Sim:
                 self._readers_running.append(c)
                 try:
                     c.work_read_queue(th)
-                except Exception as e:  # noqa
+                except (Exception, DeadlockError) as e:  # noqa
                     self.obs.append(f"CRASH reader {self.cname(c)} {type(e).__name__}")
                     self.env.crashes.append(("reader", e))
                     th.crashed = True
@@ -402,7 +402,7 @@ class Sim:
                 self._readers_running.append(c)     # (a reader that is inside a handler is not entered again: it is one thread)
                 try:
                     c.work_read_queue(c._read_thread)
-                except Exception as e:  # noqa
+                except (Exception, DeadlockError) as e:  # noqa
                     self.obs.append(f"CRASH reader {self.cname(c)} {type(e).__name__}")
                     self.env.crashes.append(("reader", e))
                     c._read_thread.crashed = True
@@ -422,7 +422,7 @@ class Sim:
                 progressed = True
                 try:
                     c.work_write_queue(c._write_thread)
-                except Exception as e:  # noqa
+                except (Exception, DeadlockError) as e:  # noqa
                     self.obs.append(f"CRASH writer {self.cname(c)} {type(e).__name__}")
                     self.env.crashes.append(("writer", e))
                     c._write_thread.crashed = True
@@ -452,7 +452,7 @@ class Sim:
                 progressed = True
                 try:
                     fn(th)
-                except Exception as e:  # noqa
+                except (Exception, DeadlockError) as e:  # noqa
                     self.obs.append(f"CRASH app a{a.idx} {thname} {type(e).__name__}")
                     self.env.crashes.append((thname, e))
                     th.crashed = True
@@ -686,7 +686,7 @@ class Sim:
                 h = hs.pop(k)
                 try:
                     h.run_now()
-                except Exception as e:  # noqa
+                except (Exception, DeadlockError) as e:  # noqa
                     self.obs.append(f"CRASH handler {type(e).__name__}")
                     self.env.crashes.append(("handler", e))
             self.settle()
